@@ -86,6 +86,21 @@ impl Arena {
     }
 }
 
+impl Arena {
+    /// Like `alloc`, but when the arena is dropped the value is *kept*
+    /// (`Obs::keep`): owned handles inside go back to the stash, because a value
+    /// lent by reference is still owned by the user code afterwards.
+    pub fn alloc_obs<'a, T: Obs<'a> + 'a>(&'a self, v: T) -> &'a T {
+        unsafe fn keep_box<'x, T: Obs<'x>>(p: *mut u8) {
+            let b = Box::from_raw(p as *mut T);
+            (*b).keep();
+        }
+        let p = Box::into_raw(Box::new(v));
+        self.items.borrow_mut().push((p as *mut u8, keep_box::<T>));
+        unsafe { &*p }
+    }
+}
+
 impl Drop for Arena {
     fn drop(&mut self) {
         let mut items = std::mem::take(&mut *self.items.borrow_mut());
@@ -230,6 +245,12 @@ impl<'a> De<'a> {
         self.expect(b'h', "handle 'h'");
         self.int("handle index") as u32
     }
+    pub fn missing_handle(&mut self, h: u32, ty: &str) -> ! {
+        mismatch(self, &format!("a {ty} handle {h} that the user code holds (stash)"))
+    }
+    pub fn unsupported(&mut self, what: &str) -> ! {
+        mismatch(self, &format!("(unsupported: {what})"))
+    }
     fn seq<T>(&mut self, open: u8, close: u8, what: &str, mut f: impl FnMut(&mut Self) -> T) -> Vec<T> {
         self.expect(open, what);
         let mut out = Vec::new();
@@ -251,6 +272,9 @@ pub trait Obs<'a>: Sized {
     const IS_UNIT: bool = false;
     fn ser(&self, s: &mut Ser);
     fn de(d: &mut De<'a>) -> Self;
+    /// Consume the value; owned resource handles inside it are moved to the
+    /// stash (the user code keeps them), everything else is dropped.
+    fn keep(self) {}
 }
 
 impl<'a> Obs<'a> for () {
@@ -389,6 +413,11 @@ impl<'a, T: Obs<'a>> Obs<'a> for Vec<T> {
         }
         d.seq(b'[', b']', "list", |d| T::de(d))
     }
+    fn keep(self) {
+        for x in self {
+            x.keep();
+        }
+    }
 }
 
 trait SerSlice {
@@ -413,7 +442,7 @@ impl<'a, T: Obs<'a> + 'a> Obs<'a> for &'a [T] {
     }
     fn de(d: &mut De<'a>) -> Self {
         let v = Vec::<T>::de(d);
-        d.arena.alloc(v).as_slice()
+        d.arena.alloc_obs(v).as_slice()
     }
 }
 
@@ -424,7 +453,7 @@ impl<'a, T: Obs<'a> + 'a> Obs<'a> for &'a T {
     }
     fn de(d: &mut De<'a>) -> Self {
         let v = T::de(d);
-        d.arena.alloc(v)
+        d.arena.alloc_obs(v)
     }
 }
 
@@ -435,6 +464,9 @@ impl<'a, T: Obs<'a>> Obs<'a> for Box<T> {
     }
     fn de(d: &mut De<'a>) -> Self {
         Box::new(T::de(d))
+    }
+    fn keep(self) {
+        (*self).keep();
     }
 }
 
@@ -447,6 +479,11 @@ impl<'a, T: Obs<'a>, const N: usize> Obs<'a> for [T; N] {
         match <[T; N]>::try_from(v) {
             Ok(a) => a,
             Err(_) => mismatch(d, "fixed-length list (length)"),
+        }
+    }
+    fn keep(self) {
+        for x in self {
+            x.keep();
         }
     }
 }
@@ -465,6 +502,11 @@ impl<'a, T: Obs<'a>> Obs<'a> for Option<T> {
             n => d.bad_case(n, "option"),
         }
     }
+    fn keep(self) {
+        if let Some(v) = self {
+            v.keep();
+        }
+    }
 }
 
 impl<'a, T: Obs<'a>, E: Obs<'a>> Obs<'a> for Result<T, E> {
@@ -479,6 +521,12 @@ impl<'a, T: Obs<'a>, E: Obs<'a>> Obs<'a> for Result<T, E> {
             0 => Ok(d.payload()),
             1 => Err(d.payload()),
             n => d.bad_case(n, "result"),
+        }
+    }
+    fn keep(self) {
+        match self {
+            Ok(v) => v.keep(),
+            Err(e) => e.keep(),
         }
     }
 }
@@ -496,6 +544,9 @@ macro_rules! tuple_obs {
                 let v = ($( d.field::<$t>($n), )+);
                 d.end_record();
                 v
+            }
+            fn keep(self) {
+                $( self.$n.keep(); )+
             }
         }
     )*};
@@ -553,6 +604,12 @@ impl<'a, K: Obs<'a> + Ord, V: Obs<'a>> Obs<'a> for BTreeMap<K, V> {
     fn de(d: &mut De<'a>) -> Self {
         de_map(d).into_iter().collect()
     }
+    fn keep(self) {
+        for (k, v) in self {
+            k.keep();
+            v.keep();
+        }
+    }
 }
 
 impl<'a, K: Obs<'a> + Eq + std::hash::Hash, V: Obs<'a>> Obs<'a> for HashMap<K, V> {
@@ -562,9 +619,62 @@ impl<'a, K: Obs<'a> + Eq + std::hash::Hash, V: Obs<'a>> Obs<'a> for HashMap<K, V
     fn de(d: &mut De<'a>) -> Self {
         de_map(d).into_iter().collect()
     }
+    fn keep(self) {
+        for (k, v) in self {
+            k.keep();
+            v.keep();
+        }
+    }
 }
 
 // ------------------------------------------------------- guest-side channel
+
+/// What the user code holds on to between calls (C07): owned handles of
+/// imported resources by (type ordinal, handle index) and owned handles of its
+/// own exported resources by (type ordinal, object id).
+pub mod stash {
+    use std::any::Any;
+    use std::cell::RefCell;
+    use std::collections::BTreeMap;
+    thread_local! {
+        static IMPORTED: RefCell<BTreeMap<(u32, u32), Box<dyn Any>>> = RefCell::new(BTreeMap::new());
+        static EXPORTED: RefCell<BTreeMap<(u32, u32), Box<dyn Any>>> = RefCell::new(BTreeMap::new());
+    }
+    pub fn put_imported(ord: u32, handle: u32, v: Box<dyn Any>) {
+        let old = IMPORTED.with(|m| m.borrow_mut().insert((ord, handle), v));
+        drop(old);
+    }
+    pub fn take_imported(ord: u32, handle: u32) -> Option<Box<dyn Any>> {
+        IMPORTED.with(|m| m.borrow_mut().remove(&(ord, handle)))
+    }
+    pub fn put_exported(ord: u32, id: u32, v: Box<dyn Any>) {
+        let old = EXPORTED.with(|m| m.borrow_mut().insert((ord, id), v));
+        drop(old);
+    }
+    pub fn take_exported(ord: u32, id: u32) -> Option<Box<dyn Any>> {
+        EXPORTED.with(|m| m.borrow_mut().remove(&(ord, id)))
+    }
+    pub fn len() -> usize {
+        IMPORTED.with(|m| m.borrow().len()) + EXPORTED.with(|m| m.borrow().len())
+    }
+    /// drop everything the user code kept (each drop goes through the bindings)
+    pub fn clear() {
+        loop {
+            let next = IMPORTED.with(|m| m.borrow_mut().pop_first());
+            match next {
+                Some((_, v)) => drop(v),
+                None => break,
+            }
+        }
+        loop {
+            let next = EXPORTED.with(|m| m.borrow_mut().pop_first());
+            match next {
+                Some((_, v)) => drop(v),
+                None => break,
+            }
+        }
+    }
+}
 
 thread_local! {
     static SCRIPT: RefCell<VecDeque<String>> = RefCell::new(VecDeque::new());
@@ -629,6 +739,18 @@ pub fn enter(ordinal: u32) {
     alloc::untracked(|| log(Event::Enter(ordinal)))
 }
 
+/// host: the most recent note with this prefix (the log is not consumed)
+pub fn peek_last_note(prefix: &str) -> Option<String> {
+    alloc::untracked(|| {
+        LOG.with(|l| {
+            l.borrow().iter().rev().find_map(|e| match e {
+                Event::Note(n) if n.starts_with(prefix) => Some(n.clone()),
+                _ => None,
+            })
+        })
+    })
+}
+
 pub fn note(s: &str) {
     alloc::untracked(|| log(Event::Note(s.to_string())))
 }
@@ -649,6 +771,18 @@ pub fn result<'a, T: Obs<'a>>(v: &T) {
         v.ser(&mut s);
         log(Event::Ret(s.out));
     })
+}
+
+/// host: should the user code keep the owned handles it receives in the next call?
+pub fn set_keep(on: bool) {
+    KEEP.with(|k| k.set(on));
+}
+
+/// guest: end of life of a received value: keep its owned handles or drop it
+pub fn dispose<'a, T: Obs<'a>>(v: T) {
+    if KEEP.with(|k| k.get()) {
+        v.keep();
+    }
 }
 
 /// guest: pop the next script entry (harness-owned string)
